@@ -1416,7 +1416,22 @@ fn c19_world(t: &mut Tape, forced: Option<(usize, bool)>) -> RunOut {
         let ai = t.below(accounts.len());
         let acct = accounts[ai].clone();
         let t_req = gen::gen_epoch(t);
-        let l = gen::gen_logical(t, &node, &mix.req);
+        let mut l = gen::gen_logical(t, &node, &mix.req);
+        if t.chance(5) {
+            // many parameters and header lines around the duplicated input (more than a small sort
+            // or table treats specially): the rule is about position among equals, not about size
+            let n = 21 + t.below(40);
+            for i in 0..n {
+                let pos = t.below(l.url_pairs.len() + 1);
+                l.url_pairs.insert(pos, (format!("f{}", i % 17).into_bytes(), format!("{}", i).into_bytes()));
+            }
+            let nh = 21 + t.below(30);
+            for i in 0..nh {
+                let pos = t.below(l.headers.len() + 1);
+                l.headers.insert(pos, (format!("x-fill-{}", i % 13), format!("{}", i).into_bytes()));
+            }
+            out.probe("dup_among_many");
+        }
         let s = gen::sign_message(t, l, &node, &acct, ai, 0, t_req, &mix.sign);
         let mut m = s.msg;
         // the same request without the duplicate is the baseline that isolates the selection rules
